@@ -67,6 +67,11 @@
 (*              (an unknown key) | unsigned (an unsigned block).  No       *)
 (*              conjunct reads it.                                         *)
 (*     env      see SJEnvOK / InvEnvOK                                     *)
+(*     oth      what R's tables (membership, pending invites, membership   *)
+(*              of the allowed rooms) hold under every identity OTHER than *)
+(*              the sender ID of the member the request is about: none |   *)
+(*              ban | invite | join (section "Who a fact is about").  No   *)
+(*              conjunct reads it.                                         *)
 (*     fb       forgery budget of the scenario (besides MaxForge)          *)
 (*     retry    J calls PerformJoin again after a refused attempt          *)
 (***************************************************************************)
@@ -117,7 +122,7 @@ ViaSigned(v)           == v \in {"9", "10", "11", "12", "org.matrix.msc3787", "o
 (* everything else is not a valid signature of S: none, wrongkey, other    *)
 (* (only another server), tampered, expired (valid_until_ts before the     *)
 (* event's time), vu_p1 (one millisecond before), revoked (expired_ts      *)
-(* before it), ex_eq (expired_ts = origin_server_ts).  The handlers         *)
+(* before it), ex_eq (expired_ts = origin_server_ts).  The handlers        *)
 (* countersign: they apply the strict validity rule in every room version. *)
 (***************************************************************************)
 GoodSigs == {"valid", "vu_eq", "ex_m1", "two_keys", "plus_other", "presigned", "presigned_bad"}
@@ -143,6 +148,45 @@ LeaveAuth(st) == st.create /\ st.mem # "ban"                             \* A1: 
 APowerOK(s) == s.apl = "ok" \/ (s.apl = "creator" /\ PrivCreators(s.ver))
 
 StateOf(s) == [create |-> s.tb # "nocreate", jr |-> s.jr, mem |-> s.mem, aHere |-> s.aHere, aOK |-> APowerOK(s)]
+
+(***************************************************************************)
+(* Who a fact is about.  R's queriers (membership, pending invites,        *)
+(* membership of the allowed rooms) are tables keyed by the identity a     *)
+(* member has IN THE ROOM: its sender ID.  The person behind it has a      *)
+(* second name, the user ID; in the room versions whose sender IDs are     *)
+(* user IDs the two are one string, in pseudo-ID rooms they are not.  And  *)
+(* the tables have rows for other members.  Keys:                          *)
+(*   "sid"   the sender ID of the member the request is about (the join's  *)
+(*           sender = state key; the invited user's sender ID)             *)
+(*   "uid"   that member's user ID, where it is another string             *)
+(*   "peer"  another member of the room                                    *)
+(* mem / pending / allow are the rows under "sid" (the property speaks of  *)
+(* "the target", "the user": the member, as the room knows it).  sc.oth is *)
+(* the row under every other key:                                          *)
+(*   none    nothing recorded                                              *)
+(*   ban     banned; no invite pending; in none of the allowed rooms       *)
+(*   invite  invited, the invite is pending; joined to the allowed rooms   *)
+(*   join    joined; no invite pending; joined to the allowed rooms        *)
+(* AskKey is the design decision: the key the handlers put their questions *)
+(* under.  View(s, k) is the facts as the tables answer under key k; the   *)
+(* mechanics read Asked(s), the property reads s (the rows of the member). *)
+(* A design that asks under another key (cfg: AskKey <- AskUid / AskPeer)  *)
+(* is refuted by the ...Exact invariants and by OtherIdentitiesIrrelevant. *)
+(***************************************************************************)
+IdKeys(v) == IF PseudoIDs(v) THEN {"sid", "uid", "peer"} ELSE {"sid", "peer"}
+AskKey  == "sid"
+AskUid  == "uid"
+AskPeer == "peer"
+
+OthInAllowed(s) == s.oth \in {"invite", "join"}
+OthAllow(s) ==
+    [i \in DOMAIN s.allow |->
+        IF OthInAllowed(s) THEN (IF s.allow[i] = "nouser" THEN "listed" ELSE s.allow[i])
+        ELSE (IF s.allow[i] \in {"empty", "listedB", "listed", "listed2"} THEN "nouser" ELSE s.allow[i])]
+View(s, k) ==
+    IF k = "sid" \/ k \notin IdKeys(s.ver) THEN s      \* where the user ID is the sender ID, asking under it is asking under "sid"
+    ELSE [s EXCEPT !.mem = s.oth, !.pending = (s.oth = "invite"), !.allow = OthAllow(s)]
+Asked(s) == View(s, AskKey)
 
 (***************************************************************************)
 (* Restricted joins: can R vouch for U?  Result:                           *)
@@ -177,8 +221,9 @@ Decide(checks) ==
          IN [res |-> "refused", code |-> checks[i].code, why |-> {checks[j].c : j \in bad}]
 
 \* --- make_join ----------------------------------------------------------
+\* the restricted-join questions go to the queriers (asked under AskKey); the auth check runs on the room state
 MJChecks(q, s) ==
-    LET via == RestrictedVia(s) IN
+    LET via == RestrictedVia(Asked(s)) IN
     << Chk("ver",        q.vers = "has",                         "M_INCOMPATIBLE_ROOM_VERSION"),
        Chk("user",       q.usrv = q.origin,                      "M_FORBIDDEN"),
        Chk("inroom",     s.inRoom /\ q.room = "main",            "M_NOT_FOUND"),
@@ -192,7 +237,7 @@ MJChecks(q, s) ==
 AuthOf(via) == IF via = "local" THEN "full" ELSE "base"
 
 Template(q, s, mship) ==
-    LET via == IF mship = "join" /\ RestrictedVia(s) = "A" THEN "local" ELSE "none" IN
+    LET via == IF mship = "join" /\ RestrictedVia(Asked(s)) = "A" THEN "local" ELSE "none" IN
     [type |-> "member", room |-> q.room, ssrv |-> q.usrv, skey |-> "sender", mship |-> mship,
      via |-> via, auth |-> AuthOf(via)]
 
@@ -225,7 +270,7 @@ SJChecks(q, s) ==
        Chk("eid",       q.eid = "match",                           "M_BAD_JSON"),
        Chk("isjoin",    e.type = "member" /\ e.mship = "join",     "M_BAD_JSON"),
        Chk("sig",       SigOK(e.sig),                              "M_FORBIDDEN"),
-       Chk("notbanned", s.mem # "ban",                             "M_FORBIDDEN"),
+       Chk("notbanned", Asked(s).mem # "ban",                      "M_FORBIDDEN"),
        Chk("via",       e.via \in {"none", "local"},               "M_BAD_JSON"),
        Chk("env",       SJEnvOK(s),                                "internal") >>
 
@@ -237,7 +282,7 @@ InvChecks(q, s) ==
        Chk("room",      e.room = q.room,                           "M_BAD_JSON"),
        Chk("isinvite",  e.type = "member" /\ e.mship = "invite" /\ e.skey = "invitee", "M_BAD_JSON"),
        Chk("sig",       s.uq = "ok" /\ SigOK(e.sig),               "M_FORBIDDEN"),
-       Chk("notjoined", ~(s.known /\ s.mem = "join"),              "M_FORBIDDEN"),
+       Chk("notjoined", ~(s.known /\ Asked(s).mem = "join"),       "M_FORBIDDEN"),
        Chk("env",       InvEnvOK(s),                               "internal") >>
 
 \* --- invite, v3 endpoint (the local server completes and signs a template itself) ------------------
@@ -245,7 +290,7 @@ InvChecks(q, s) ==
 Inv3Checks(q, s) ==
     << Chk("rv",        s.rv = "known",                            "M_UNSUPPORTED_ROOM_VERSION"),
        Chk("room",      q.proom = q.room,                          "M_BAD_JSON"),
-       Chk("notjoined", ~(s.known /\ s.mem = "join"),              "M_FORBIDDEN"),
+       Chk("notjoined", ~(s.known /\ Asked(s).mem = "join"),       "M_FORBIDDEN"),
        Chk("env",       Inv3EnvOK(s),                              "internal") >>
 
 (***************************************************************************)
@@ -260,7 +305,7 @@ NoRet == [ev |-> NoEv, rsig |-> FALSE]
 (*   m = [res, ev, jret, create, st, jrsig, ban]                           *)
 (*     create  "ok" | "missing" | "unknownver" | "badsig"                  *)
 (*             | "nochain" (empty auth chain)                              *)
-(*     st      "ok" | "dup" (a state tuple twice) | "dupmem" (two member    *)
+(*     st      "ok" | "dup" (a state tuple twice) | "dupmem" (two member   *)
 (*             events of U) | "nokey" (an event without state key) |       *)
 (*             "nocreate" (the state list lacks the create event)          *)
 (*     jrsig   "ok" | "bad": signature on the join-rules event             *)
@@ -299,7 +344,8 @@ PJChecks(m, e0, s) ==
 (***************************************************************************)
 Base(v) == [ver |-> v, rv |-> "known", inRoom |-> TRUE, jr |-> "public", mem |-> "none", pending |-> FALSE,
             allow |-> <<>>, apl |-> "ok", aHere |-> TRUE, tb |-> "ok", qerr |-> "none", known |-> TRUE,
-            uq |-> "ok", map |-> "ok", stripped |-> "none", fam |-> "e2e", extra |-> "none", env |-> "ok", fb |-> 9, retry |-> FALSE]
+            uq |-> "ok", map |-> "ok", stripped |-> "none", fam |-> "e2e", extra |-> "none", env |-> "ok", oth |-> "none",
+            fb |-> 9, retry |-> FALSE]
 
 E2EJoin(vs) ==
     UNION {{[Base(v) EXCEPT !.jr = jr, !.mem = mem, !.inRoom = ir, !.pending = (mem = "invite"), !.allow = al] :
@@ -605,6 +651,11 @@ TemplateShape ==
             /\ t.mship = (IF hist[i].a = "MakeJoinResp" THEN "join" ELSE "leave")
             /\ t.via \in {"none", "local"}
 
+\* ... authorised by a local user exactly when the joining member needs one (the member: the rows under its sender ID)
+TemplateAuthoriser ==
+    \A i \in Entries("MakeJoinResp") :
+        hist[i].res = "ok" => (hist[i].tmpl.via = "local" <=> RestrictedVia(sc) = "A")
+
 \* 2. HandleSendJoin / HandleInvite accept an event only if ...
 SJConjuncts(q, s) ==
     LET e == q.ev IN
@@ -615,7 +666,7 @@ SJConjuncts(q, s) ==
     /\ s.uq = "ok" /\ e.ssrv = q.origin                    \* whose sender belongs to the requesting server
     /\ (PseudoIDs(s.ver) => s.map = "ok")                  \*   (pseudo IDs: by a mapping that server signed)
     /\ SigOK(e.sig) /\ s.env # "kr_err"                    \* which that server has validly signed
-    /\ s.mem # "ban" /\ s.env # "memq_err"                 \* whose target is not banned
+    /\ s.mem # "ban" /\ s.env # "memq_err"                 \* whose target (the state key: the sender ID) is not banned
     /\ e.via \in {"none", "local"}                         \* whose authorising user is local
 
 InvConjuncts(q, s) ==
@@ -655,6 +706,24 @@ PerformJoinExact ==
           (hist[i].res = "ok") <=> /\ hist[i].resp.res = "ok"
                                    /\ hist[i].resp.create \in {"ok", "badsig"}
                                    /\ FedChecksPass(hist[i].resp, hist[i].jev, sc)
+
+\* 4. Every clause is about the member the request names, as the room knows it.  What R's tables hold under any
+\*    other identity (the member's user ID where that is another string, another member) changes no decision and
+\*    no template: the decision is the one taken in the world where those rows are empty.
+HandlerActions == {"MakeJoinResp", "MakeLeaveResp", "SendJoinResp", "InviteResp", "InviteV3Resp"}
+DecisionIn(a, q, s) ==
+    CASE a = "MakeJoinResp"  -> Decide(MJChecks(q, s))
+      [] a = "MakeLeaveResp" -> Decide(MLChecks(q, s))
+      [] a = "SendJoinResp"  -> Decide(SJChecks(q, s))
+      [] a = "InviteResp"    -> Decide(InvChecks(q, s))
+      [] a = "InviteV3Resp"  -> Decide(Inv3Checks(q, s))
+OtherIdentitiesIrrelevant ==
+    \A i \in DOMAIN hist :
+        hist[i].a \in HandlerActions =>
+            LET s0 == [sc EXCEPT !.oth = "none"]
+                d0 == DecisionIn(hist[i].a, hist[i].req, s0) IN
+            /\ hist[i].res = d0.res /\ hist[i].why = d0.why
+            /\ (hist[i].a = "MakeJoinResp" /\ d0.res = "ok") => hist[i].tmpl = Template(hist[i].req, s0, "join")
 
 \* consequences that must hold (sanity of the specification itself)
 NoJoinWithoutBothHandlers ==
